@@ -20,10 +20,17 @@ package engine
 //@   trusted-frame
 
 //@ func intPow
-//@   property C05
+//@   property C05 C07
 //@   safety only shift
-//@   checks only shift
+//@   checks only shift at-call at-call-missing maintains inv-entry inv-keep
 //@   trusted-frame
+//@   bind pr, prerr = mulI#1
+//@   bind sq, sqerr = mulI#2
+//@   at-call mulI#2 requires[the-base-is-squared-with-the-overflow-check] a0 == a1
+//@   loop 1 maintains[before-the-next-bit-of-the-exponent-the-base-has-been-squared-without-overflow] called(sq) && sqerr == nil && sq == local(a, Integer) * local(a, Integer)
+//@   loop 1 maintains[for-a-set-bit-of-the-exponent-the-result-has-been-multiplied-by-the-base-without-overflow] local(b, Integer) & 1 != 0 ==> called(pr) && prerr == nil && pr == r * local(a, Integer)
+//@   loop 1 invariant[the-next-base-is-that-checked-square] called(sq) ==> local(a, Integer) == sq
+//@   loop 1 invariant[a-set-bit-of-the-exponent-multiplies-the-result-by-the-base-with-the-overflow-check] called(pr) ==> r == pr
 
 // writeCompoundNumberVars: also the index into the letter table; it is in range because the number is not negative,
 // which the only caller (WriteCompound, below) tests.
@@ -55,9 +62,10 @@ package engine
 //@   ensures err is exceptionalValue ==> result
 
 //@ func eval$1
-//@   property C05
+//@   property C05 C07
 //@   nosafety
 //@   trusted-frame
+//@   at-call errors.As requires[the-error-of-the-evaluation-is-inspected-for-an-exceptional-value] a0 == err
 //@   at-call evaluationError requires[about-the-value-found-and-in-the-environment-of-the-evaluation] a0 == ev && a1 == env
 //@   ensures[an-exceptional-value-never-leaves-as-the-raw-go-value] !(err is exceptionalValue)
 //@   let raised = err
